@@ -282,6 +282,18 @@ def rule_template(ctx):
         if isinstance(b.right, ast.Tuple):
             for el in b.right.elts:
                 for x in ast.walk(el):
+                    helper_names = {nm for nm in ff.nested} | {t_.id for a_ in walk_shallow(ff.node) if isinstance(a_, ast.Assign)
+                                                               and isinstance(a_.value, ast.Lambda) for t_ in a_.targets if isinstance(t_, ast.Name)}
+                    pad_helpers = {f_.name for f_, rets_ in _helper_funcs(p, ff) if any(
+                        (isinstance(b_, ast.Call) and isinstance(b_.func, ast.Attribute) and b_.func.attr in ("ljust", "rjust", "center")) or
+                        (isinstance(b_, ast.BinOp) and isinstance(b_.op, ast.Add) and " * " in ast.unparse(b_)) for b_ in rets_)}
+                    foreign_call = (isinstance(x, ast.Call) and isinstance(x.func, ast.Name) and x.func.id not in ("str", "repr")
+                                    and x.func.id not in helper_names and x.func.id not in pad_helpers)
+                    if foreign_call:
+                        pr.append("field `%s` passes through `%s(...)` before it is written: what is written is no longer str(<field>), so a "
+                                  "value can change on a write/read cycle (e.g. rounded to fewer digits than the data it is compared with)"
+                                  % (unparse(el)[:50], x.func.id))
+                        break
                     if isinstance(x, (ast.BoolOp, ast.IfExp, ast.BinOp, ast.Compare)) or (
                             isinstance(x, ast.Call) and isinstance(x.func, ast.Attribute) and x.func.attr in ("strip", "replace", "upper", "lower", "format")):
                         pr.append("field `%s` is transformed (`%s`): e.g. `x or ''` writes the legitimate values 0 and 0.0 as an "
@@ -704,3 +716,46 @@ def rule_key_norm(ctx):
               "the reader normalises the lookup key with %s, the writer with %s: for a mixed-case STRT/STOP/STEP/NULL in a "
               "1.2 ~Well section the two sides choose different value/description orders" % (rnorm or "nothing", wnorm or "nothing"))
     ctx.floor("ORD.KEY-NORM", 1)
+
+
+def rule_version_consistency(ctx):
+    """WR.COPY-VERS / WR.ORDER-KEY (version clauses): the copy of ~Version that is written differs from las.version in the VERS
+    item only (nothing is deleted from it), and the version handed to get_section_order_function is the very version that the
+    written VERS item declares - not a value derived from it (a 1.0 file written with the 2.0 layout but declaring 1.0 is read
+    back with value and description swapped)"""
+    p = ctx.p
+    fw = p.func(WRITE)
+    # the copy
+    copies = {t.id for s_ in walk_shallow(fw.node) if isinstance(s_, ast.Assign) and isinstance(s_.value, ast.Call)
+              and ast.unparse(s_.value.func).endswith("deepcopy") and s_.value.args and "version" in ast.unparse(s_.value.args[0])
+              for t in s_.targets if isinstance(t, ast.Name)}
+    dels = []
+    for sub in walk_shallow(fw.node):
+        if isinstance(sub, ast.Delete):
+            for t in sub.targets:
+                if isinstance(t, ast.Subscript) and isinstance(t.value, ast.Name) and t.value.id in copies:
+                    dels.append(sub)
+        if isinstance(sub, ast.Call) and isinstance(sub.func, ast.Attribute) and sub.func.attr in ("pop", "remove", "__delitem__", "clear") \
+                and isinstance(sub.func.value, ast.Name) and sub.func.value.id in copies:
+            dels.append(sub)
+    if copies:
+        ctx.check(not dels, "WR.COPY-VERS", WRITE + "#copy-complete", fw, dels[0] if dels else fw.node,
+                  "nothing is removed from the written copy of ~Version", "`%s` removes an item from the ~Version copy that is written: the "
+                  "1.2 and the 2.0 output of one object then differ in more than VERS/WRAP" % (unparse(dels[0])[:60] if dels else ""))
+    # the version variable: the one tested where the VERS item is set
+    vnames = set()
+    for sub in walk_shallow(fw.node):
+        if isinstance(sub, ast.If) and isinstance(sub.test, ast.Compare) and isinstance(sub.test.left, ast.Name) \
+                and any(isinstance(a_, ast.Assign) and "VERS" in ast.unparse(a_.targets[0]) for a_ in ast.walk(sub)):
+            vnames.add(sub.test.left.id)
+    calls = [c for c in walk_shallow(fw.node) if isinstance(c, ast.Call) and isinstance(c.func, ast.Name) and c.func.id == "get_section_order_function"
+             and len(c.args) >= 2]
+    if not vnames or not calls:
+        ctx.undecided("WR.ORDER-KEY", WRITE + "#layout-version", fw, fw.node, "version test / order-function calls not found in a recognised form")
+        return
+    for i, c in enumerate(calls):
+        a = c.args[1]
+        ctx.check(isinstance(a, ast.Name) and a.id in vnames, "WR.ORDER-KEY", WRITE + "#layout-version@%d" % (i + 1), fw, c,
+                  "the layout of section %s is looked up for the version that the VERS item declares" % unparse(c.args[0]),
+                  "the layout is looked up for `%s`, not for `%s` which decides the VERS item: a file can declare one version and be laid "
+                  "out for another, and the reader (which goes by VERS) swaps value and description" % (unparse(a), sorted(vnames)[0]))
